@@ -7,20 +7,486 @@ namespace Yalafi
 
 variable (T : PTables)
 
+/-! ### pure lemmas: `detectMathParts`, `replaceStep`, `replaceSection` -/
+
+/-- token of a maths section's output: in range, maths class or output class -/
+def MTok (n : Nat) (t : Tok) : Prop := TokOk T n t ∧ (isMathTok t = true ∨ outKind t = true)
+
+def ItemOk (n : Nat) : SecItem → Prop
+  | .tok t => OTok T n t
+  | .part ts => ∀ t ∈ ts, t.pos < n
+
+theorem detect_ok (n : Nat) : ∀ (ts cur : List Tok), (∀ t ∈ ts, MTok T n t) → (∀ t ∈ cur, t.pos < n) →
+    ∀ it ∈ detectMathParts ts cur, ItemOk T n it := by
+  intro ts
+  induction ts with
+  | nil =>
+    intro cur _ hc it hit
+    simp only [detectMathParts] at hit
+    split at hit
+    · simp at hit
+    · simp at hit; subst hit; simpa [ItemOk] using hc
+  | cons t ts ih =>
+    intro cur hts hc it hit
+    have ht := hts t (by simp)
+    have hts' : ∀ t ∈ ts, MTok T n t := fun u hu => hts u (by simp [hu])
+    simp only [detectMathParts] at hit
+    split at hit
+    · exact ih (t :: cur) hts' (by intro u hu; simp at hu; rcases hu with rfl | hu; exact ht.1.1; exact hc u hu) it hit
+    · rename_i hm
+      simp only [List.mem_append, List.mem_cons] at hit
+      rcases hit with hit | rfl | hit
+      · split at hit
+        · simp at hit
+        · simp at hit; subst hit; simpa [ItemOk] using hc
+      · refine ⟨ht.1, ?_⟩
+        rcases ht.2 with h | h
+        · exact absurd h hm
+        · exact h
+      · exact ih [] hts' (by simp) it hit
+
+theorem OL_nil (n : Nat) : OL T n [] := by intro t h; simp at h
+theorem OL_snoc (n : Nat) (a : List Tok) (t : Tok) (ha : OL T n a) (ht : OTok T n t) : OL T n (a ++ [t]) := by
+  intro u hu; simp at hu; rcases hu with hu | rfl; exact ha u hu; exact ht
+theorem OTok_mathSp (n p : Nat) (h : p < n) : OTok T n (mathSp p) := OTok_mkFix T n p .space _ h (by simp)
+theorem OTok_fixText (n p : Nat) (txt : Str) (h : p < n) : OTok T n (mkFix .text p txt) := OTok_mkFix T n p .text _ h (by simp)
+
+theorem find_pos_lt (n : Nat) (ts : List Tok) (p : Tok → Bool) (d : Nat) (h : ∀ t ∈ ts, t.pos < n) (hd : d < n) :
+    ((ts.find? p).map (·.pos)).getD d < n := by
+  cases hf : ts.find? p with
+  | none => simpa using hd
+  | some t => simpa using h t (List.mem_of_find?_eq_some hf)
+
+theorem replaceStep_OL (n : Nat) (opText : List (Str × Str)) (opDefault : Option Str) (inline : Bool)
+    (s s' : RsState) (it : SecItem) (hs : OL T n s.out) (hi : ItemOk T n it)
+    (h : replaceStep T opText opDefault inline s it = some s') : OL T n s'.out := by
+  cases it with
+  | tok t =>
+    simp only [replaceStep, Option.some.injEq] at h
+    subst h
+    split <;> exact OL_snoc T n _ _ hs hi
+  | part ts =>
+    simp only [replaceStep] at h
+    have hi' : ∀ t ∈ ts, t.pos < n := hi
+    split at h
+    · rename_i t0 tl h0 hl
+      have ht0 : t0.pos < n := hi' t0 (List.mem_of_head? h0)
+      have hout1 : OL T n (if (t0.kind == Kind.mathSpace) = true then s.out ++ [mathSp t0.pos] else s.out) := by
+        split
+        · exact OL_snoc T n _ _ hs (OTok_mathSp T n _ ht0)
+        · exact hs
+      split at h
+      · simp only [Option.some.injEq] at h; subst h
+        exact OL_snoc T n _ _ hs (OTok_mathSp T n _ ht0)
+      · split at h
+        · exact absurd h (by simp)
+        · rename_i out2 h2
+          have hout2 : OL T n out2 := by
+            split at h2
+            · rename_i o ho
+              have hop : o.pos < n := by
+                split at ho
+                · rename_i t hf
+                  split at ho
+                  · simp only [Option.some.injEq] at ho; subst ho
+                    exact hi' _ (List.mem_of_find?_eq_some hf)
+                  · exact absurd ho (by simp)
+                · exact absurd ho (by simp)
+              split at h2
+              · split at h2
+                · exact absurd h2 (by simp)
+                · simp only [Option.some.injEq] at h2; subst h2
+                  rw [show ∀ (a : List Tok) x y z, a ++ [x, y, z] = a ++ [x] ++ [y] ++ [z] by simp]
+                  exact OL_snoc T n _ _ (OL_snoc T n _ _ (OL_snoc T n _ _ hout1 (OTok_mathSp T n _ ht0))
+                    (OTok_fixText T n _ _ hop)) (OTok_mathSp T n _ hop)
+              · simp only [Option.some.injEq] at h2; subst h2; exact hout1
+            · simp only [Option.some.injEq] at h2; subst h2; exact hout1
+          split at h
+          · exact absurd h (by simp)
+          · simp only [Option.some.injEq] at h; subst h
+            have hpp : (if inline = true then t0.pos else
+                (Option.map (fun x => x.pos) (List.find?
+                  (fun t => t.kind == Kind.mathElem && !T.mathPunctuation.contains t.txt) ts)).getD t0.pos) < n := by
+              split
+              · exact ht0
+              · exact find_pos_lt n ts _ _ hi' ht0
+            simp only
+            repeat' (first | assumption | with_reducible apply OL_snoc | with_reducible apply OTok_mathSp | with_reducible apply OTok_fixText | split)
+    · exact absurd h (by simp)
+
+theorem foldlM_replaceStep_OL (n : Nat) (opText : List (Str × Str)) (opDefault : Option Str) (inline : Bool) :
+    ∀ (items : List SecItem) (s s' : RsState), OL T n s.out → (∀ it ∈ items, ItemOk T n it) →
+    items.foldlM (replaceStep T opText opDefault inline) s = some s' → OL T n s'.out := by
+  intro items
+  induction items with
+  | nil => intro s s' hs _ h; simp at h; subst h; exact hs
+  | cons it items ih =>
+    intro s s' hs hi h
+    simp only [List.foldlM_cons, Option.bind_eq_bind, Option.bind_eq_some_iff] at h
+    obtain ⟨s1, h1, h2⟩ := h
+    exact ih s1 s' (replaceStep_OL T n _ _ _ s s1 it hs (hi it (by simp)) h1) (fun j hj => hi j (by simp [hj])) h2
+
+theorem replaceSection_OL (n : Nat) (opText : List (Str × Str)) (opDefault : Option Str) (inline : Bool)
+    (sec : List Tok) (fs nr : Bool) (repls : List Str) (rs : RsState) (h : ∀ t ∈ sec, MTok T n t)
+    (hr : replaceSection T opText opDefault inline (detectMathParts sec []) fs nr repls = some rs) :
+    OL T n rs.out := by
+  unfold replaceSection at hr
+  exact foldlM_replaceStep_OL T n _ _ _ _ _ rs (OL_nil T n) (detect_ok T n sec [] h (by simp)) hr
+
+/-! ### frame lemmas -/
+
+theorem Good_refl (nroot : Nat) (st : PState) (h : G T nroot st) : Good T nroot st st := ⟨h, rfl, rfl⟩
+
+theorem Good_trans (nroot : Nat) (a b c : PState) (h1 : Good T nroot a b) (h2 : Good T nroot b c) :
+    Good T nroot a c :=
+  ⟨h2.1, h2.2.1.trans h1.2.1, h2.2.2.trans h1.2.2⟩
+
+theorem Good_diags (nroot : Nat) (st st' : PState) (h : G T nroot st)
+    (hd : st' = { st with diags := st'.diags }) : Good T nroot st st' := by
+  rw [hd]; exact ⟨G_diags T nroot st _ h, rfl, rfl⟩
+
+theorem Good_setRot (nroot : Nat) (st : PState) (r : Rot) (h : G T nroot st) : Good T nroot st (setRot st r) :=
+  ⟨⟨⟨h.flows, h.macros, h.envs, h.gloss⟩, h.root, h.inFrame⟩, rfl, rfl⟩
+
+theorem MTok_of_OTok (n : Nat) (t : Tok) (h : OTok T n t) : MTok T n t := ⟨h.1, Or.inr h.2⟩
+
+theorem TokOk_mkMath (n p : Nat) (k : Kind) (txt : Str) (hp : p < n)
+    (hk : k = .mathSpace ∨ k = .mathOper ∨ k = .mathElem) : TokOk T n (mkTok k p txt) := by
+  rcases hk with rfl | rfl | rfl <;> simp [TokOk, mkTok, extent, ctlEmpty, mbOk, hp, Nat.le_of_lt hp]
+
+theorem MTok_mkMath (n p : Nat) (k : Kind) (txt : Str) (hp : p < n)
+    (hk : k = .mathSpace ∨ k = .mathOper ∨ k = .mathElem) : MTok T n (mkTok k p txt) := by
+  refine ⟨TokOk_mkMath T n p k txt hp hk, Or.inl ?_⟩
+  rcases hk with rfl | rfl | rfl <;> rfl
+
+theorem MathBuf_of_BL (n : Nat) (b : Buf) (h : BL T n b) : MathBuf T n b :=
+  ⟨[], b, rfl, by simp, by intro t ht; simp at ht, h⟩
+
+theorem skipSpace_MathBuf (n : Nat) (buf : Buf) (tok : Tok) (rest : Buf) (h : MathBuf T n buf)
+    (hs : skipSpace buf = tok :: rest) : TokOk T n tok ∧ BL T n rest := by
+  obtain ⟨pre, rest0, rfl, hl, hp, hr⟩ := h
+  have key : ∀ b : Buf, BL T n b → skipSpace b = tok :: rest → TokOk T n tok ∧ BL T n rest := by
+    intro b hb hsb
+    have := BL_skipSpace T n b hb
+    rw [hsb] at this
+    exact ⟨(this tok (by simp)).1, fun u hu => this u (by simp [hu])⟩
+  match pre, hl, hp with
+  | [], _, _ => exact key rest0 hr hs
+  | [p], _, hp =>
+    simp only [skipSpace, List.cons_append, List.nil_append, List.dropWhile_cons] at hs
+    split at hs
+    · exact key rest0 hr hs
+    · simp only [List.cons.injEq] at hs
+      obtain ⟨rfl, rfl⟩ := hs
+      exact ⟨hp _ (by simp), hr⟩
+  | _ :: _ :: _, hl, _ => simp at hl
+
+/-- the postcondition of `expandMathSection` relative to the state at entry -/
+def MathPost (nroot : Nat) (st : PState) (r : MathSec) (st' : PState) : Prop :=
+  Good T nroot st st' ∧ BL T st.latex.length r.buf ∧
+    (∀ t ∈ r.out, TokOk T st.latex.length t ∧ (isMathTok t = true ∨ outKind t = true)) ∧
+    (∀ t, r.term = some t → t.pos < st.latex.length)
+
+/-- recursive call of `expandMathSection` from a later state of the same frame -/
+theorem mathSec_rec (nroot fuel : Nat) (IH : AllSpecs T nroot fuel) (st st1 : PState)
+    (hgood : Good T nroot st st1) (buf : Buf) (start : Nat) (toksStop : List Str) (envStop : Option Str)
+    (out : List Tok) (hb : MathBuf T st.latex.length buf) (hs : start < st.latex.length)
+    (he : ∀ nm, envStop = some nm → (endFuncNames T).contains nm = false)
+    (ho : ∀ t ∈ out, MTok T st.latex.length t) :
+    Post (expandMathSection T fuel buf start toksStop envStop out st1) (MathPost T nroot st) := by
+  have hl : st1.latex = st.latex := hgood.2.1
+  have := IH.mathSec buf start toksStop envStop out st1 hgood.1 (by rw [hl]; exact hb) (by rw [hl]; exact hs) he
+    (by rw [hl]; exact ho)
+  rw [hl] at this
+  refine Post_mono _ _ _ this ?_
+  intro r s ⟨h1, h2, h3, h4⟩
+  exact ⟨Good_trans T nroot _ _ _ hgood h1, h2, h3, h4⟩
+
+theorem fin_MTok (n : Nat) (p : Tok → Bool) (o : List Tok) (h : ∀ t ∈ o, MTok T n t) :
+    ∀ t ∈ o.filter p, TokOk T n t ∧ (isMathTok t = true ∨ outKind t = true) :=
+  fun t ht => h t (List.mem_filter.mp ht).1
+
+theorem MTok_append (n : Nat) (a b : List Tok) (ha : ∀ t ∈ a, MTok T n t) (hb : ∀ t ∈ b, MTok T n t) :
+    ∀ t ∈ a ++ b, MTok T n t := by
+  intro t ht; rcases List.mem_append.mp ht with h | h; exact ha t h; exact hb t h
+
+theorem MTok_OL (n : Nat) (a : List Tok) (ha : OL T n a) : ∀ t ∈ a, MTok T n t :=
+  fun t ht => MTok_of_OTok T n t (ha t ht)
+
+/-! ### `expandMathSection` -/
+
+theorem Post_ite {α} (c : Prop) [Decidable c] (a b : M α) (st : PState) (Q : α → PState → Prop)
+    (ha : c → Post (a st) Q) (hb : ¬c → Post (b st) Q) : Post ((if c then a else b) st) Q := by
+  by_cases h : c
+  · rw [if_pos h]; exact ha h
+  · rw [if_neg h]; exact hb h
+
 theorem mathSec_step (hw : T.WFInv) (nroot fuel : Nat) (IH : AllSpecs T nroot fuel) :
     SpecMathSec T nroot (fuel + 1) := by
-  sorry
+  intro buf start toksStop envStop out st hg hmb hstart henv hout
+  change Post _ (MathPost T nroot st)
+  have hout' : ∀ t ∈ out, MTok T st.latex.length t := hout
+  rw [expandMathSection.eq_2]
+  cases hsk : skipSpace buf with
+  | nil =>
+    -- end of buffer
+    dsimp only
+    refine Post_bind _ _ _ _ _ (latexError_spec T hw _ start st hstart) ?_
+    intro e st1 ⟨he, hst1⟩
+    apply Post_pure
+    exact ⟨Good_diags T nroot st st1 hg hst1, by intro t ht; simp at ht,
+      fin_MTok T _ _ _ (MTok_append T _ _ _ (MTok_OL T _ _ he) hout'), by intro t ht; simp at ht⟩
+  | cons tok rest =>
+    dsimp only
+    obtain ⟨htok, hrest⟩ := skipSpace_MathBuf T _ buf tok rest hmb hsk
+    refine Post_ite _ _ _ _ _ (fun hk => ?_) (fun _ => ?_)
+    · -- paragraph
+      refine Post_bind _ _ _ _ _ (latexError_spec T hw _ start st hstart) ?_
+      intro e st1 ⟨he, hst1⟩
+      apply Post_pure
+      refine ⟨Good_diags T nroot st st1 hg hst1, hrest,
+        fin_MTok T _ _ _ (MTok_append T _ _ _ (MTok_OL T _ _ he) hout'), ?_⟩
+      intro t ht; simp only [Option.some.injEq] at ht; subst ht; exact htok.1
+    refine Post_ite _ _ _ _ _ (fun hk => ?_) (fun _ => ?_)
+    · -- stop token
+      apply Post_pure
+      refine ⟨Good_refl T nroot st hg, hrest, fin_MTok T _ _ _ hout', ?_⟩
+      intro t ht; simp only [Option.some.injEq] at ht; subst ht; exact htok.1
+    refine Post_ite _ _ _ _ _ (fun hk => ?_) (fun _ => ?_)
+    · -- \begin
+      have hbt : BTok T st.latex.length tok := ⟨htok, by simp only [beq_iff_eq] at hk; simp [isMathTok, hk]⟩
+      refine Post_bind _ _ _ _ _ (IH.begin_ rest tok true st hg hrest hbt) ?_
+      intro r st1 ⟨hgood, h1, h2⟩
+      exact mathSec_rec T nroot fuel IH st st1 hgood _ start toksStop envStop out
+        (MathBuf_of_BL T _ _ ((BL_append T _ _ _).mpr ⟨h1, h2⟩)) hstart henv hout'
+    refine Post_ite _ _ _ _ _ (fun hk => ?_) (fun _ => ?_)
+    · -- \end
+      have hbt : BTok T st.latex.length tok := ⟨htok, by simp only [beq_iff_eq] at hk; simp [isMathTok, hk]⟩
+      refine Post_bind _ _ _ _ _ (IH.end_ rest tok envStop st hg hrest hbt) ?_
+      intro r st1 ⟨hgood, h1, h2, h3⟩
+      refine Post_ite _ _ _ _ _ (fun hk => ?_) (fun _ => ?_)
+      · apply Post_pure
+        refine ⟨hgood, h2, fin_MTok T _ _ _ (MTok_append T _ _ _ hout' (MTok_OL T _ _ (h3 hk henv))), ?_⟩
+        intro t ht; simp only [Option.some.injEq] at ht; subst ht; exact htok.1
+      · exact mathSec_rec T nroot fuel IH st st1 hgood _ start toksStop envStop out
+          (MathBuf_of_BL T _ _ ((BL_append T _ _ _).mpr ⟨h1, h2⟩)) hstart henv hout'
+    refine Post_ite _ _ _ _ _ (fun hk => ?_) (fun _ => ?_)
+    · -- macro
+      have hbt : BTok T st.latex.length tok := ⟨htok, by simp only [beq_iff_eq] at hk; simp [isMathTok, hk]⟩
+      refine Post_bind _ _ _ _ _ (Post_get st (fun a s => st = a ∧ st = s) ⟨rfl, rfl⟩) ?_
+      rintro _ _ ⟨rfl, rfl⟩
+      refine Post_ite _ _ _ _ _ (fun hk => ?_) (fun _ => ?_)
+      · -- text macro
+        refine Post_bind _ _ _ _ _ (argBuffer_spec T hw rest tok.pos true st hrest htok.1) ?_
+        intro a st1 ⟨ha1, _, ha2, hst1⟩
+        have hgood1 := Good_diags T nroot st st1 hg hst1
+        have hl1 : st1.latex = st.latex := hgood1.2.1
+        have hseq := IH.seq a.1 none [] st1 hgood1.1 (by rw [hl1]; exact ha1) (by intro t ht; simp at ht)
+        rw [hl1] at hseq
+        refine Post_bind _ _ _ _ _ hseq ?_
+        intro e st2 ⟨hgood2, he1, _, he3⟩
+        exact mathSec_rec T nroot fuel IH st st2 (Good_trans T nroot _ _ _ hgood1 hgood2) _ start toksStop envStop _
+          (MathBuf_of_BL T _ _ ha2) hstart henv (MTok_append T _ _ _ hout' (MTok_OL T _ _ (he3 rfl)))
+      · -- other macro
+        refine Post_bind _ _ _ _ _ (IH.macro_ rest tok true st hg hrest hbt) ?_
+        intro r st1 ⟨hgood, h1, h2⟩
+        refine Post_bind _ _ _ _ _ (Post_get st1 (fun a s => st1 = a ∧ st1 = s) ⟨rfl, rfl⟩) ?_
+        rintro _ _ ⟨rfl, rfl⟩
+        refine mathSec_rec T nroot fuel IH st st1 hgood _ start toksStop envStop out ?_ hstart henv hout'
+        refine ⟨_, r.1 ++ r.2, List.append_assoc _ _ _, ?_, ?_, (BL_append T _ _ _).mpr ⟨h1, h2⟩⟩
+        · split; simp; split; simp; split; simp; simp
+        · intro t ht
+          split at ht
+          · simp only [List.mem_singleton] at ht; subst ht; exact TokOk_mkMath T _ _ _ _ htok.1 (by simp)
+          split at ht
+          · simp only [List.mem_singleton] at ht; subst ht; exact TokOk_mkMath T _ _ _ _ htok.1 (by simp)
+          split at ht
+          · simp only [List.mem_singleton] at ht; subst ht; exact TokOk_mkMath T _ _ _ _ htok.1 (by simp)
+          · simp at ht
+    · -- other tokens
+      refine Post_bind _ _ _ _ _ (Post_get st (fun a s => st = a ∧ st = s) ⟨rfl, rfl⟩) ?_
+      rintro _ _ ⟨rfl, rfl⟩
+      have hmr := MathBuf_of_BL T _ _ hrest
+      have hgr := Good_refl T nroot st hg
+      have snoc : ∀ t, MTok T st.latex.length t → ∀ u ∈ out ++ [t], MTok T st.latex.length u :=
+        fun t ht => MTok_append T _ _ _ hout' (by intro u hu; simp only [List.mem_singleton] at hu; subst hu; exact ht)
+      refine Post_ite _ _ _ _ _ (fun hk => ?_) (fun _ => ?_)
+      · exact mathSec_rec T nroot fuel IH st st hgr _ start toksStop envStop _ hmr hstart henv (snoc tok ⟨htok, Or.inl hk⟩)
+      refine Post_ite _ _ _ _ _ (fun hk => ?_) (fun _ => ?_)
+      · exact mathSec_rec T nroot fuel IH st st hgr _ start toksStop envStop _ hmr hstart henv hout'
+      refine Post_ite _ _ _ _ _ (fun hk => ?_) (fun _ => ?_)
+      · exact mathSec_rec T nroot fuel IH st st hgr _ start toksStop envStop _ hmr hstart henv hout'
+      refine Post_ite _ _ _ _ _ (fun hk => ?_) (fun _ => ?_)
+      · exact mathSec_rec T nroot fuel IH st st hgr _ start toksStop envStop _ hmr hstart henv
+          (snoc _ (MTok_mkMath T _ _ _ _ htok.1 (by simp)))
+      cases mathSpecialTxt T tok with
+      | none => exact Post_crash _ _ _
+      | some txt =>
+        dsimp only
+        refine Post_ite _ _ _ _ _ (fun hk => ?_) (fun _ => ?_)
+        · exact mathSec_rec T nroot fuel IH st st hgr _ start toksStop envStop _ hmr hstart henv
+            (snoc _ (MTok_mkMath T _ _ _ _ htok.1 (by simp)))
+        · exact mathSec_rec T nroot fuel IH st st hgr _ start toksStop envStop _ hmr hstart henv
+            (snoc _ (MTok_mkMath T _ _ _ _ htok.1 (by simp)))
+
+/-! ### `expandInlineMath` -/
+
+theorem lastPos_lt (n d : Nat) (l : List Tok) (hl : ∀ t ∈ l, t.pos < n) (hd : d < n) :
+    ((l.getLast?).map (·.pos)).getD d < n := by
+  cases h : l.getLast? with
+  | none => simpa using hd
+  | some t => simpa using hl t (List.mem_of_getLast? h)
+
+theorem OL_pos (n : Nat) (l : List Tok) (h : OL T n l) : ∀ t ∈ l, t.pos < n := fun t ht => (h t ht).1.1
+
+theorem OL_cons (n : Nat) (t : Tok) (l : List Tok) (ht : OTok T n t) (hl : OL T n l) : OL T n (t :: l) := by
+  intro u hu; simp only [List.mem_cons] at hu; rcases hu with rfl | hu; exact ht; exact hl u hu
 
 theorem inline_step (hw : T.WFInv) (nroot fuel : Nat) (IH : AllSpecs T nroot fuel) :
     SpecInline T nroot (fuel + 1) := by
-  sorry
+  intro buf tok st hg hb ht
+  have _ := hw
+  have hp : tok.pos < st.latex.length := ht.1.1
+  rw [expandInlineMath.eq_2]
+  refine Post_bind _ _ _ _ _ (IH.mathSec buf tok.pos _ none [] st hg (MathBuf_of_BL T _ _ hb) hp
+    (by intro nm h; cases h) (by intro t h; simp at h)) ?_
+  intro sec st1 ⟨hgood, hbuf, hout, _⟩
+  refine Post_bind _ _ _ _ _ (Post_get st1 (fun a s => st1 = a ∧ st1 = s) ⟨rfl, rfl⟩) ?_
+  rintro _ _ ⟨rfl, rfl⟩
+  dsimp only
+  cases hr : rotOf st1 (curSettings st1) with
+  | none => exact Post_crash _ _ _
+  | some rot =>
+    cases hs : settingsOf T (curSettings st1) with
+    | none => exact Post_crash _ _ _
+    | some ls =>
+      dsimp only
+      cases hrs : replaceSection T ls.opText ls.opDefault true (detectMathParts sec.out []) true true rot.inl with
+      | none => exact Post_crash _ _ _
+      | some rs =>
+        dsimp only
+        have hro := replaceSection_OL T _ _ _ _ _ _ _ _ rs hout hrs
+        refine Post_bind _ _ _ _ _ (Post_modify _ st1 (fun _ s => Good T nroot st s)
+          (Good_trans T nroot _ _ _ hgood (Good_setRot T nroot st1 _ hgood.1))) ?_
+        intro _ st2 hgood2
+        apply Post_pure
+        have ho1 : OL T st.latex.length (mkAction tok.pos :: rs.out) := OL_cons T _ _ _ (OTok_mkAction T _ _ hp) hro
+        exact ⟨hgood2, OL_snoc T _ _ _ ho1 (OTok_mkAction T _ _ (lastPos_lt _ _ _ (OL_pos T _ _ ho1) hp)), hbuf⟩
+/-! ### `displayLoop` -/
+
+/-- recursive call of `displayLoop` from a later state of the same frame -/
+theorem dispLoop_rec (nroot fuel : Nat) (IH : AllSpecs T nroot fuel) (st st1 : PState)
+    (hgood : Good T nroot st st1) (buf : Buf) (start : Nat) (envName : Str) (first next : Bool)
+    (out : List Tok) (hb : BL T st.latex.length buf) (hs : start < st.latex.length)
+    (ho : OL T st.latex.length out) (he : (endFuncNames T).contains envName = false) :
+    Post (displayLoop T fuel buf start envName first next out st1) (fun r st' =>
+      Good T nroot st st' ∧ OL T st.latex.length r.1 ∧ BL T st.latex.length r.2) := by
+  have hl : st1.latex = st.latex := hgood.2.1
+  have := IH.dispLoop buf start envName first next out st1 hgood.1 (by rw [hl]; exact hb) (by rw [hl]; exact hs)
+    (by rw [hl]; exact ho) he
+  rw [hl] at this
+  refine Post_mono _ _ _ this ?_
+  intro r s ⟨h1, h2, h3⟩
+  exact ⟨Good_trans T nroot _ _ _ hgood h1, h2, h3⟩
+
+theorem nextStart_lt (n start : Nat) (b : Buf) (hb : BL T n b) (hs : start < n) :
+    (match b.head? with | some t => t.pos | none => start) < n := by
+  cases b with
+  | nil => exact hs
+  | cons t r => exact (hb t (by simp)).1.1
 
 theorem dispLoop_step (hw : T.WFInv) (nroot fuel : Nat) (IH : AllSpecs T nroot fuel) :
     SpecDispLoop T nroot (fuel + 1) := by
-  sorry
+  intro buf start envName first next out st hg hb hstart hout henv
+  rw [displayLoop.eq_2]
+  refine Post_bind _ _ _ _ _ (IH.mathSec buf start _ (some envName) [] st hg (MathBuf_of_BL T _ _ hb) hstart
+    (by intro nm h; cases h; exact henv) (by intro t h; simp at h)) ?_
+  intro sec st1 ⟨hgood, hbuf, hsout, hterm⟩
+  refine Post_bind _ _ _ _ _ (Post_get st1 (fun a s => st1 = a ∧ st1 = s) ⟨rfl, rfl⟩) ?_
+  rintro _ _ ⟨rfl, rfl⟩
+  dsimp only
+  cases hr : rotOf st1 (curSettings st1) with
+  | none => exact Post_crash _ _ _
+  | some rot =>
+    cases hs : settingsOf T (curSettings st1) with
+    | none => exact Post_crash _ _ _
+    | some ls =>
+      dsimp only
+      cases hrs : replaceSection T ls.opText ls.opDefault false (detectMathParts sec.out []) first next rot.disp with
+      | none => exact Post_crash _ _ _
+      | some rs =>
+        dsimp only
+        have hro := replaceSection_OL T _ _ _ _ _ _ _ _ rs hsout hrs
+        refine Post_bind _ _ _ _ _ (Post_modify _ st1 (fun _ s => Good T nroot st s)
+          (Good_trans T nroot _ _ _ hgood (Good_setRot T nroot st1 _ hgood.1))) ?_
+        intro _ st2 hgood2
+        have ho1 : OL T st.latex.length (out ++ rs.out) := (OL_append T _ _ _).mpr ⟨hout, hro⟩
+        have hlp := lastPos_lt _ _ _ (OL_pos T _ _ ho1) hstart
+        have hfin : Post ((pure (out ++ rs.out, sec.buf) : M _) st2) (fun r st' =>
+            Good T nroot st st' ∧ OL T st.latex.length r.1 ∧ BL T st.latex.length r.2) :=
+          Post_pure _ _ _ ⟨hgood2, ho1, hbuf⟩
+        cases hte : sec.term with
+        | none => exact hfin
+        | some e =>
+          dsimp only
+          refine Post_ite _ _ _ _ _ (fun _ => ?_) (fun _ => ?_)
+          · exact dispLoop_rec T nroot fuel IH st st2 hgood2 _ _ envName _ _ _ hbuf
+              (nextStart_lt T _ _ _ hbuf hstart)
+              (OL_snoc T _ _ _ ho1 (OTok_mkFix T _ _ .space _ hlp (by simp))) henv
+          refine Post_ite _ _ _ _ _ (fun _ => ?_) (fun _ => ?_)
+          · have hl2 : st2.latex = st.latex := hgood2.2.1
+            have hpn := parseNewlineOption_spec T hw sec.buf false st2 (by rw [hl2]; exact hbuf)
+            refine Post_bind _ _ _ _ _ hpn ?_
+            intro b st3 ⟨hb3, hst3⟩
+            rw [hl2] at hb3
+            exact dispLoop_rec T nroot fuel IH st st3
+              (Good_trans T nroot _ _ _ hgood2 (Good_diags T nroot st2 st3 hgood2.1 hst3)) _ _ envName _ _ _ hb3
+              (nextStart_lt T _ _ _ hb3 hstart)
+              (OL_snoc T _ _ _ ho1 (OTok_mkFix T _ _ .space _ hlp (by simp))) henv
+          · exact hfin
+
+/-! ### `expandDisplayMath` -/
+
+theorem OL_of_forall (n : Nat) (l : List Tok) (h : ∀ t ∈ l, OTok T n t) : OL T n l := h
 
 theorem display_step (hw : T.WFInv) (nroot fuel : Nat) (IH : AllSpecs T nroot fuel) :
     SpecDisplay T nroot (fuel + 1) := by
-  sorry
+  intro buf tok envName remove st hg hb ht henv
+  have _ := hw
+  have hp : tok.pos < st.latex.length := ht.1.1
+  have hact := OTok_mkAction T _ _ hp
+  have hsp2 := OTok_mkFix T st.latex.length tok.pos .space [' ', ' '] hp (by simp)
+  rw [expandDisplayMath.eq_2]
+  refine Post_bind _ _ _ _ _ (IH.dispLoop buf tok.pos envName true true _ st hg hb hp
+    (OL_cons T _ _ _ hact (OL_cons T _ _ _ hsp2 (OL_nil T _))) henv) ?_
+  intro r st1 ⟨hgood, hr1, hr2⟩
+  have hlp := lastPos_lt _ _ _ (OL_pos T _ _ hr1) hp
+  refine Post_ite _ _ _ _ _ (fun _ => ?_) (fun _ => ?_)
+  · have h1 : ∀ c : Char, Post ((pure ([mkFix Kind.text ((Option.map (fun x => x.pos) r.fst.getLast?).getD tok.pos) [c]],
+        r.snd) : M (List Tok × Buf)) st1) (fun r st' =>
+          Good T nroot st st' ∧ OL T st.latex.length r.1 ∧ BL T st.latex.length r.2) := fun c =>
+      Post_pure _ _ _ ⟨hgood, OL_cons T _ _ _ (OTok_mkFix T _ _ .text _ hlp (by simp)) (OL_nil T _), hr2⟩
+    have h2 : Post ((pure ([mkAction ((Option.map (fun x => x.pos) r.fst.getLast?).getD tok.pos)],
+        r.snd) : M (List Tok × Buf)) st1) (fun r st' =>
+          Good T nroot st st' ∧ OL T st.latex.length r.1 ∧ BL T st.latex.length r.2) :=
+      Post_pure _ _ _ ⟨hgood, OL_cons T _ _ _ (OTok_mkAction T _ _ hlp) (OL_nil T _), hr2⟩
+    repeat' split
+    all_goals first | exact h1 _ | exact h2
+  · refine Post_bind _ _ _ _ _ (Post_get st1 (fun a s => st1 = a ∧ st1 = s) ⟨rfl, rfl⟩) ?_
+    rintro _ _ ⟨rfl, rfl⟩
+    refine Post_ite _ _ _ _ _ (fun _ => ?_) (fun _ => ?_)
+    · cases (rotOf st1 (curSettings st1)).bind (fun x => x.disp.head?) with
+      | none => exact Post_crash _ _ _
+      | some d0 =>
+        dsimp only
+        apply Post_pure
+        refine ⟨hgood, ?_, hr2⟩
+        refine OL_snoc T _ _ _ ((OL_append T _ _ _).mpr ⟨?_, ?_⟩) hact
+        · exact OL_cons T _ _ _ hact (OL_cons T _ _ _ hsp2
+            (OL_cons T _ _ _ (OTok_mkFix T _ _ .text _ hp (by simp)) (OL_nil T _)))
+        · repeat' split
+          all_goals first | exact OL_cons T _ _ _ (OTok_mkFix T _ _ .text _ hp (by simp)) (OL_nil T _) | exact OL_nil T _
+    · apply Post_pure
+      exact ⟨hgood, OL_snoc T _ _ _ hr1 (OTok_mkAction T _ _ hlp), hr2⟩
 
 end Yalafi
